@@ -1,5 +1,6 @@
 import Driver.Util
 import LemoModel.Journal
+import LemoModel.MergeLogs
 namespace Driver.C07
 open LemoModel.Journal Driver
 
@@ -109,8 +110,27 @@ def showOut : Out → String
   | .snap id => s!"snap {id}"
   | .panic => "panic"
 
+def parseLog (w : String) : Option LemoModel.MergeLogs.L :=
+  match w.splitOn ":" with
+  | [t, e, v] => do some (LemoModel.MergeLogs.mkL (← t.toNat?) (← e.toNat?) (← parseInt? v))
+  | _ => none
+
+def showLog (l : LemoModel.MergeLogs.L) : String :=
+  match l.writes with
+  | [(_, v)] => s!"{l.key / 100}:{l.key % 100}:{v}"
+  | _ => "?"
+
 def step (d : D) (w : List String) : D × String :=
   match w with
+  | ["needmerge", t, b] =>
+    match t.toNat? with
+    | some t => (d, if toString (LemoModel.MergeLogs.needMerge t) == b then "ok" else "table-mismatch")
+    | none => (d, "bad-op")
+  | ["needmerge-stop", n] => (d, if n.toNat? == some LemoModel.MergeLogs.logTypeStop then "ok" else "table-mismatch")
+  | "merge" :: ws =>
+    match ws.mapM parseLog with
+    | some logs => (d, " ".intercalate ("merged" :: (LemoModel.MergeLogs.merge logs).map showLog))
+    | none => (d, "bad-op")
   | "init" :: rest =>
     match stepInit d rest with
     | some d' => (d', "ok")
